@@ -1037,6 +1037,66 @@ Proof.
 Qed.
 
 (* ------------------------------------------------------------------ *)
+(* validation sees the dict completed with the parameters; export views  *)
+(* ------------------------------------------------------------------ *)
+Lemma import_validates_merged O kt d ps :
+  (forall k, import_key O kt d ps = Ok k ->
+     validate_dict_key kt d = Ok tt /\ validate_dict_key kt (init_data kt d ps) = Ok tt) /\
+  (validate_dict_key kt (init_data kt d ps) <> Ok tt -> forall k, import_key O kt d ps <> Ok k) /\
+  (validate_dict_key kt d <> Ok tt -> forall k, import_key O kt d ps <> Ok k).
+Proof.
+  split; [|split].
+  - intros k H. apply import_key_inv in H. tauto.
+  - intros N k H. apply import_key_inv in H. tauto.
+  - intros N k H. apply import_key_inv in H. tauto.
+Qed.
+
+Lemma dget_filter_key (f : str -> bool) (d : dict) m :
+  dget (filter (fun kv => f (fst kv)) d) m = if f m then dget d m else None.
+Proof.
+  induction d as [|[k v] d IH]; simpl; [destruct (f m); reflexivity|].
+  destruct (str_eqb k m) eqn:E.
+  - apply str_eqb_eq in E. subst k. destruct (f m) eqn:F; simpl.
+    + rewrite str_eqb_refl. reflexivity.
+    + rewrite IH; try rewrite F; reflexivity.
+  - destruct (f k); simpl; [rewrite E|]; exact IH.
+Qed.
+
+Definition private_names (kt : ktype) : list string :=
+  map kp_name (filter (fun p => match kp_private p with Some true => true | _ => false end) (value_registry kt)).
+
+Lemma private_names_ok :
+  private_names KOct = ["k"]%string /\
+  private_names KRSA = ["d"; "p"; "q"; "dp"; "dq"; "qi"; "oth"]%string /\
+  private_names KEC = ["d"]%string /\ private_names KOKP = ["d"]%string.
+Proof. repeat split; reflexivity. Qed.
+
+Lemma is_private_member_names kt m :
+  is_private_member kt m = str_mem m (map asc (private_names kt)).
+Proof.
+  unfold is_private_member, private_names.
+  induction (value_registry kt) as [|p r IH]; [reflexivity|].
+  cbn [existsb filter]. rewrite IH.
+  destruct (kp_private p) as [[|]|]; cbn [map str_mem]; unfold K;
+    rewrite ?andb_false_r, ?andb_true_r; reflexivity.
+Qed.
+
+(* the three views of a key are functions of its dict and of ITS OWN type's
+   registry only: nothing else (no other key, no earlier export) enters *)
+Theorem export_views (k : key) ps :
+  as_dict k None ps = Ok (dupdate (k_dict k) ps) /\
+  (is_private (k_native k) = true -> as_dict k (Some true) ps = Ok (dupdate (k_dict k) ps)) /\
+  (is_private (k_native k) = false -> as_dict k (Some true) ps = Err EValue) /\
+  (exists pub, as_dict k (Some false) [] = Ok pub /\
+     forall m, dget pub m = if str_mem m (map asc (private_names (k_type k))) then None else dget (k_dict k) m).
+Proof.
+  unfold as_dict. split; [reflexivity|]. split; [intros ->; reflexivity|]. split; [intros ->; reflexivity|].
+  eexists. split; [reflexivity|]. intros m. rewrite dupdate_nil.
+  rewrite (dget_filter_key (fun x => negb (is_private_member (k_type k) x))).
+  rewrite is_private_member_names. destruct (str_mem m _); reflexivity.
+Qed.
+
+(* ------------------------------------------------------------------ *)
 (* table facts (expected literals from RFC 7517 / 7518 / 8037 / 8812)   *)
 (* ------------------------------------------------------------------ *)
 Definition required_names (reg : list kparam) : list string :=
@@ -1225,6 +1285,17 @@ Proof.
   - eexists. split; vm_compute; reflexivity.
   - vm_compute. reflexivity.
   - vm_compute. reflexivity.
+Qed.
+
+Lemma merged_instance :
+  (exists k, import_key O_yes KOct (ex_oct [(K "use", PStr (asc "sig"))]) [(K "key_ops", PList [PStr (asc "sign")])] = Ok k) /\
+  import_key O_yes KOct (ex_oct [(K "use", PStr (asc "sig"))]) [(K "key_ops", PList [PStr (asc "decrypt")])] = Err EValue /\
+  import_key O_yes KOct (ex_oct []) [(K "kid", PInt 0)] = Err EValue /\
+  (exists k, import_key O_yes KOct (ex_oct [(K "kid", PStr []); (K "key_ops", PList []); (K "x5c", PList [])]) [] = Ok k) /\
+  import_key O_yes KOct (ex_oct [(K "kid", PList [])]) [] = Err EValue.
+Proof.
+  split; [eexists; vm_compute; reflexivity|]. split; [vm_compute; reflexivity|].
+  split; [vm_compute; reflexivity|]. split; [eexists; vm_compute; reflexivity | vm_compute; reflexivity].
 Qed.
 
 Lemma ec_p521_instance :
